@@ -29,6 +29,10 @@ CHECKS = {
          "Metamorphic: one generated logical table is realised under two independently drawn physical layouts (batch split, flush points, combine factor, lz4, sub-partition size, batch_size, threads, memory/disk/reopened/evicted) and queried with filter, order/limit and aggregate queries; both realisations must give the same outcome class and both are anchored to the reference evaluator, so `equally wrong` does not pass.",
          "DESIGN.md 4 C02", "Same trusted base as C03/C04/C05; query shapes that are known findings under either layout are excluded and counted.",
          "property-based testing (proptest), metamorphic relation between two physical realisations anchored to a reference evaluator"),
+ "C07": ("exploration",
+         "Model-based histories over ingest / force_flush / evict_cache / restart on an on-disk database with combine factors that compact 1..k partitions at every flush; after every step every table is read back in full (SELECT *, explicit columns, count and a filter probe) and compared with the model of acknowledged batches, so any maintenance step that changes content is caught at the step that caused it.",
+         "DESIGN.md 4 C07", "Model = concatenation of acknowledged batches (model.rs); compaction is observed through the compact.begin sync point for the non-triviality count only.",
+         "model-based (stateful) property-based testing with proptest: vec(op) interpreted against the database and a reference model"),
 }
 
 NOT_YET = {
